@@ -49,6 +49,11 @@ def run(ctx, rep):
             rep.ob('R17.a', T + '::append_messages', vn + ' arm', ok and not other, b.where(bb),
                    'arm computes the id the way its kind demands' if ok and not other else 'the %s arm does not take the partition id from %s%s' % (vn, {'Balanced': 'get_next_partition_id', 'PartitionId': 'the request value', 'MessagesKey': 'the key hash'}[vn], ' (uses %s instead)' % other if other else ''))
 
+    # the id handed to the partition append is one of the three, nothing else (no fourth source, no short cut in front of the dispatch)
+    import forms as forms_
+    forms_.check_call_args(ctx, rep, 'R17.a', {T + '::append_messages': {'AppendableBatchInfo::new': [
+        'batch_size, phi{Topic::calculate_partition_id_by_messages_key_hash(self, partitioning.value) | Topic::get_next_partition_id(self) | u32::from_le_bytes(::index(partitioning.value, RangeTo::RangeTo{end: partitioning.length}))}']}}, skip_self=False, cd=2)
+
     rep.rule('R17.b', 'the key hash lands in [1, n]: (hash32(key) mod n) with 0 mapped to n; depends only on key and n; modulo guarded by has_partitions', floor=4, analysis='A10 range')
     H = T + '::calculate_partition_id_by_messages_key_hash'
     hb = ctx.fn_body(H)
@@ -117,3 +122,8 @@ def run(ctx, rep):
         T + '::delete_persisted_partitions': {'RangeInclusive::new': ['((HashMap::len(self.partitions) - phi{HashMap::len(self.partitions) | count}) + 1), HashMap::len(self.partitions)']},
     }, skip_self=False)
     forms.check_call_args(ctx, rep, 'R17.f', {T + '::delete_persisted_partitions': {'AHashMap::remove': ['::next(::into_iter(…))']}})   # the key removed is the loop variable itself
+
+    # ------------------------------------------------------------ R17.g the partitions that exist after a restart are the ones that existed before
+    from props.c05 import replay_partition_numbering
+    replay_partition_numbering(ctx, rep, 'R17.g')
+
